@@ -249,6 +249,8 @@ def m_result_branch(it, p, callee, args):
 
 def m_result_from_residual(it, p, callee, args):
     r = args[0]
+    if not isinstance(r, Enum):
+        return Enum(it.const_int(1, "isize"), {1: Tup([Opaque("err")])}, RESULT, "Result")
     return Enum(it.const_int(1, "isize"), {1: r.payloads.get(1, Tup([Opaque("err")]))}, RESULT, "Result")
 
 
@@ -610,3 +612,53 @@ BUFMUT_MODELS = {
     r"core::str::<impl str>::as_bytes$": m_str_as_bytes,
     r"^Option::<.*>::is_some$": m_option_is_some_generic,
 }
+
+
+# ----------------------------------------------------------------------------- slice iterators over Seq, strings as opaque constants
+def m_vec_ref_into_iter(it, p, callee, args):
+    return Tup([args[0], it.const_int(0, "usize")], "SliceIter")
+
+
+def m_slice_iter_next(it, p, callee, args):
+    itv = deref(args[0])
+    seq_ref = itv.f[0]
+    pos = _cint(itv.f[1])
+    items = elems(deref(seq_ref))
+    if pos >= len(items):
+        return none(it)
+    itv.f[1] = it.const_int(pos + 1, "usize")
+    return some(it, Ref(seq_ref.cell, seq_ref.path + (("index_const", pos),)))
+
+
+def pstr(s):
+    """a concrete string value (field / type names): compared by content"""
+    return Opaque('str:"' + s + '"')
+
+
+def m_str_eq(it, p, callee, args):
+    a, b = args
+    a = deref(a) if isinstance(a, Ref) else a
+    b = deref(b) if isinstance(b, Ref) else b
+    if isinstance(a, Opaque) and isinstance(b, Opaque) and a.name.startswith("str:") and b.name.startswith("str:"):
+        return Bool(z3.BoolVal(a.name == b.name))
+    raise Unsupported(f"string comparison of non-concrete strings {a} {b}")
+
+
+def m_opaque(name):
+    return lambda it, p, c, a: Opaque(name)
+
+
+def m_result_unwrap(it, p, callee, args):
+    r = args[0]
+    d = z3.simplify(r.discr.t)
+    if (z3.is_bv_value(d) or z3.is_int_value(d)) and d.as_long() == 0:
+        return r.payloads[0].f[0] if 0 in r.payloads and r.payloads[0].f else Unit()
+    q = fork(p)
+    q.pc.append(r.discr.t != 0)
+    out = []
+    if it.feasible(q.pc):
+        q.outcome = ("panic", "called `Result::unwrap()` on an `Err` value")
+        out.append((q, PANIC))
+    p.pc.append(r.discr.t == 0)
+    out.append((p, r.payloads[0].f[0] if 0 in r.payloads and r.payloads[0].f else Unit()))
+    return out
